@@ -84,7 +84,7 @@ def main():
         "engines": [],
         "checks": [],
         "not_applicable": [],
-        "notes": "Technique family: runtime monitoring and sanitizers. Every check executes the real spok code (packages linked into the harness, or the spok binary built from /repo's working tree) under generated, enumerated, hostile and fault-injected workloads; an oracle over the observed events decides. See DESIGN.md. VERIF_REPO=<dir> points the checks at a scratch copy of the repository instead of /repo (used for sensitivity tests only).",
+        "notes": "Technique family: runtime monitoring and sanitizers. Every check executes the real spok code (packages linked into the harness, or the spok binary built from /repo's working tree) under generated, enumerated, hostile and fault-injected workloads; an oracle over the observed events decides. See DESIGN.md. VERIF_REPO=<dir> points the checks at a scratch copy of the repository instead of /repo (used for sensitivity tests only). Known findings (known_findings.json): C13 prints three KNOWN-FINDING lines (spokfile variables named PWD, IFS, OPTIND are overwritten by the embedded shell, DESIGN.md 11.3 D17) and exits 0; sixteen earlier defects were repaired by fix: commits in /repo and are listed there as fixed.",
     }
     engines = {}
     for pid in props:
